@@ -231,6 +231,8 @@ struct TraceProblem {
         tr->begin("gradpsi");
         tr->v(x);
         inner.eval_grad_ψ(x, y, Σ, g, wn, wm);
+        if (wm_scratch) // work vectors are scratch space: a solver that reads ŷ out of `work_m` afterwards is exposed
+            wm.setConstant(real_t(777)), wn.setConstant(real_t(-555));
         tr->v(g);
     }
     real_t eval_ψ_grad_ψ(crvec x, crvec y, crvec Σ, rvec g, rvec wn, rvec wm) const {
